@@ -54,11 +54,30 @@ def resolve_shape(ctx, rule='A5'):
                          'otherwise an error is raised')
     # the loop applies every mapping whose choice node is still in the graph, threading the graph through
     body = ' '.join(norm(s) for s in loops[0].ast.body)
-    ok = f'{res} = choice_mapping.resolve({res}, choice_node, {src})' in body and \
-        f'if choice_node in {res}.graph.nodes' in body and 'self.choice_mappings' in norm(loops[0].ast.iter)
+    # (decided on the CFG: the threading statement `res = <mapping>.resolve(res, <choice node>, src)` inside the loop is
+    # reached only over an edge on which `<choice node> in res.graph.nodes` holds - if/else, guard clause + continue)
+    steps = [n for n in cfg.nodes if n.kind == 'stmt' and isinstance(n.ast, ast.Assign) and
+             any(n.ast is x for st_ in loops[0].ast.body for x in ast.walk(st_)) and
+             norm(n.ast.targets[0]) == res and isinstance(n.ast.value, ast.Call) and
+             call_name(n.ast.value) == 'resolve' and len(n.ast.value.args) == 3 and
+             norm(n.ast.value.args[0]) == res and norm(n.ast.value.args[2]) == src]
+    ok = False
+    if len(steps) == 1:
+        cn = norm(steps[0].ast.value.args[1])
+        ge_in = cfg.edges_implying(lambda a, t: _in_fact(a, t, cn, f'{res}.graph.nodes'))
+        ok = bool(ge_in) and not cfg.can_reach(loops[0], steps[0], blocked_edges=ge_in) and \
+            'self.choice_mappings' in norm(loops[0].ast.iter)
     ctx.ob(rule, fkey(fn, rule, 'mappings-threaded'), ok, fn.where,
            'every registered mapping whose choice node is still present is resolved against the graph produced by '
            'the previous mapping', body[:140])
+
+
+def _in_fact(atom, truth, lhs, container):
+    """the fact `lhs in container`, whichever way the test is written"""
+    if not (isinstance(atom, ast.Compare) and len(atom.ops) == 1 and norm(atom.left) == lhs and
+            norm(atom.comparators[0]) == container):
+        return False
+    return (isinstance(atom.ops[0], ast.In) and truth is True) or (isinstance(atom.ops[0], ast.NotIn) and truth is False)
 
 
 def init_shape(ctx, rule='A5'):
@@ -338,7 +357,7 @@ def option_provenance(ctx, rule='A6'):
     if not loops and nexts:
         c, g = nexts[0]
         gen = g.generators[0]
-        ok = norm(gen.iter) == 'self._mapping.items()'
+        ok = norm(expand_locals(fe, gen.iter, 2)) == 'self._mapping.items()'
         ctx.ob(rule, fkey(fe, rule, 'declaration-order'), ok, fe.where,
                'the existence mapping is scanned in declaration order of the mapping', norm(gen.iter))
         kv = [norm(e) for e in gen.target.elts] if isinstance(gen.target, ast.Tuple) else []
@@ -361,7 +380,7 @@ def option_provenance(ctx, rule='A6'):
     else:
         _existence_scan_loop(ctx, rule, fe, cfge, loops)
     fb = [n for n in cfge.nodes if n.kind == 'stmt' and isinstance(n.ast, ast.Assign) and
-          norm(n.ast.value) == 'self._mapping[None]']
+          norm(expand_locals(fe, n.ast.value, 2)) == 'self._mapping[None]']
     ok = bool(fb)
     if ok:
         ok = any(p.kind == 'test' and lab == 'T' and norm(p.ast) == 'sup_tgt_option_node is None'
